@@ -183,6 +183,15 @@ Proof.
     inversion H. exists e'. split; [reflexivity|]. split; [|reflexivity]. symmetry. apply rkey_eqb_eq. exact E.
 Qed.
 
+(** get_subclasses is the transitive closure of the direct-subclass lists: every strict subclass,
+    however deep, is in the list the wrapper key is looked up in *)
+Lemma subclasses_closure_main : forall U c d cl, wf_universe U = true -> get_cls U d = Some cl ->
+  is_subclass U d c = true -> d <> c -> In d (get_subclasses (S (length U)) U c).
+Proof.
+  intros U c d cl Hwf Hd Hs Hne. apply subs_complete; [exact Hwf|exact Hs|exact Hne|].
+  pose proof (get_cls_lt U d cl Hd). lia.
+Qed.
+
 (* ------------------------------------------------------------------ dict documents *)
 Lemma hier_rt_main : forall H U poly,
   (forall p v, prim_has p v = true -> hl_ok H p v = true ->
